@@ -248,6 +248,23 @@ func (p *Prog) stopClosedSet(seed []string, bodies []*ssa.Function) map[string]b
 					if bi, ok := d.Call.Value.(*ssa.Builtin); ok && bi.Name() == "close" {
 						closes = append(closes, p.chanIdent(d.Call.Args[0]))
 					}
+					// several clean-up steps merged into one deferred function literal: a close in its entry block runs
+					// on every exit just the same
+					var lit *ssa.Function
+					if mc, ok := d.Call.Value.(*ssa.MakeClosure); ok {
+						lit, _ = mc.Fn.(*ssa.Function)
+					} else if fn, ok := d.Call.Value.(*ssa.Function); ok && fn.Parent() == b {
+						lit = fn
+					}
+					if lit != nil && len(lit.Blocks) > 0 {
+						for _, x := range lit.Blocks[0].Instrs {
+							if c, ok := x.(*ssa.Call); ok {
+								if bi, ok := c.Call.Value.(*ssa.Builtin); ok && bi.Name() == "close" {
+									closes = append(closes, p.chanIdent(c.Call.Args[0]))
+								}
+							}
+						}
+					}
 				}
 			}
 			if len(closes) == 0 {
